@@ -107,7 +107,7 @@ func hostileManifest(r *simkit.RNG, strs []string) string {
 	locals := []string{"pkgdir", "pkgdir", "pkgdir0", "pkg", "pkgdir-old", "PKGDIR", "Pkg", "..cache", "...", "..", ".", "a/b", "a\\b", "", "/abs", "terraform-sources.json", "../x", "x/..", "pkgdir/", "/", "..\\..", "pkgdir\x00", "ü", " ..", "..\n", " .", " ", "\t..", ".. ", " pkgdir"}
 	sources := []string{"git::https://example.com/x.git", "https://example.com/x.tgz", "git::https://example.com/x.git//sub", "garbage", "", "./local", "https://user:pw@example.com/x.tgz", "git::https://example.com/x.git?ref=a"}
 	regs := []string{"example.com/a/b/c", "a/b/c", "example.com/a/b/c//sub", "garbage", "", "a/b"}
-	vers := []string{"1.0.0", "1.0.0-beta", "not-a-version", "", "1", "v1.0.0", "1.0.0+b", "0.0.0", "18446744073709551616.0.0", "1.99999999999999999999.0"}
+	vers := []string{"1.0.0", "1.0.0", "1.0", "01.0.0", "1.0.0-beta", "not-a-version", "", "1", "v1.0.0", "1.0.0+b", "0.0.0", "18446744073709551616.0.0", "1.99999999999999999999.0"}
 	doc := map[string]interface{}{"terraform_source_bundle": simkit.Pick(r, []interface{}{1, 1, 1, 1, 1, 1, 0, 2, "1", -1, 1.5, nil})}
 	var pkgs []interface{}
 	for i := r.Range(0, 3); i > 0; i-- {
@@ -159,6 +159,13 @@ func hostileManifest(r *simkit.RNG, strs []string) string {
 	}
 	if regl != nil {
 		doc["registry"] = regl
+	}
+	if simkit.NewRNG(uint64(len(strs))*7919+uint64(len(regl)), "bw/manifest-version-keys").Chance(1, 6) {
+		// an otherwise well-formed manifest in which two version keys of one registry package are
+		// spellings of the same version
+		k2 := simkit.Pick(r, []string{"1.0", "01.0.0", "1", "1.0.0"})
+		return `{"terraform_source_bundle":1,"packages":[{"source":"https://example.com/x.tgz","local":"pkgdir"},{"source":"git::https://example.com/x.git","local":"pkgdir0"}],` +
+			`"registry":[{"source":"example.com/a/b/c","versions":{"1.0.0":{"source":"https://example.com/x.tgz"},"` + k2 + `":{"source":"git::https://example.com/x.git","deprecation":{"Version":"1.0.0","Reason":"r","Link":"l"}}}}]}`
 	}
 	b, _ := json.Marshal(doc)
 	s := string(b)
